@@ -113,7 +113,12 @@ pub fn specs(tier: &str) -> Vec<ExpSpec> {
         let mut c2 = cfg;
         c2.name = format!("{}-short", c2.name);
         c2.short = Short::Always;
-        v.push(ExpSpec::new(c2, alphabet(512, true), if th { 3 } else { 2 }).with_prefix(prefix()));
+        v.push(ExpSpec::new(c2.clone(), alphabet(512, true), if th { 3 } else { 2 }).with_prefix(prefix()));
+        // storage with its own (7-byte) block size: transfers are cut at its block boundaries
+        let mut c3 = c2;
+        c3.name = c3.name.replace("-short", "-blk7");
+        c3.short = Short::Block(7);
+        v.push(ExpSpec::new(c3, alphabet(512, false), if th { 3 } else { 2 }).with_prefix(prefix()));
     }
     // other cluster sizes
     let geos: Vec<(FatType, u16, u32)> = if th {
